@@ -181,10 +181,42 @@ def gen_storm(rng, cid, nburst):
     return scn, meta
 
 
+def gen_flood(rng, cid):
+    """dozens of files change between two ticks of a slow main loop (far more than any per-tick batch), some of them twice or
+    thrice in a row - rewritten, deleted, re-created - while the queue is being worked off"""
+    names = ["f%02d.json" % i for i in range(46)]
+    state, ops, ver = {}, [], 0
+    for rnd in range(rng.randint(3, 5)):
+        for f in names:
+            ver += 1
+            c = "%s#%d" % (f, ver)
+            ops.append({"op": "write", "file": f, "text": content("valid", c)})
+            state[f] = ("valid", c)
+        for f in rng.sample(names, 12):
+            r = rng.random()
+            if r < 0.5:
+                ops.append({"op": "delete", "file": f})
+                state.pop(f, None)
+            else:
+                ver += 1
+                c = "%s#%d" % (f, ver)
+                ops.append({"op": rng.choice(["write", "rename_in"]), "file": f, "text": content("valid", c)})
+                state[f] = ("valid", c)
+        ops.append({"op": "wait_ticks", "n": rng.choice([0, 1, 1])})
+    scn = {"id": cid, "seed": rng.randint(1, 10**6), "base": BASE, "initial": {}, "ops": ops, "missing_at_start": False, "trailing_slash": False,
+           "yield_us": 0, "tick_us": rng.choice([20000, 40000]), "mutex_yield_ppm": rng.choice([0, 20000]), "flood": len(names)}
+    meta = {"final": {f: list(v) for f, v in state.items()}, "initial": {}, "recreated": 0, "invalid": 0, "missing_at_start": False}
+    return scn, meta
+
+
 def cases(seed, tier):
     quick = tier != "thorough"
     rng = random.Random(seed * 1000003 + 14)
     scns, metas = [], []
+    for i in range(16 if quick else 80):
+        s, m = gen_flood(rng, "C14-%d-flood%d" % (seed, i))
+        scns.append(s)
+        metas.append(m)
     for i in range(48 if quick else 200):
         s, m = gen_storm(rng, "C14-%d-storm%d" % (seed, i), 1500 if quick else 3000)
         scns.append(s)
@@ -220,6 +252,8 @@ def judge(case, results):
             v.bad("no-output", "", r["err"][-1500:])
             continue
         v.count("runs")
+        if scn.get("flood"):
+            v.count("flood_runs")
         if scn.get("storm"):
             v.count("storm_runs")
             v.count("storm_directory_replacements", scn["storm"])
@@ -265,7 +299,7 @@ def judge(case, results):
                 scn["id"], got, want, meta["final"], [(o["op"], o.get("file")) for o in scn["ops"][-8:]], really, "\n    ".join(loglines[-60:])))
         else:
             v.count("converged_runs")
-        if len(want) >= 3 and (meta["recreated"] or meta["invalid"] >= 5):
+        if len(want) >= 3 and (meta["recreated"] or meta["invalid"] >= 5 or scn.get("flood")):
             nt.add(core.scn_hash(scn))
     v.stats["_distinct"] = len(nt)
     v.nontrivial = len(nt) >= 2
